@@ -24,7 +24,12 @@ func (a *asm) push(bs ...byte) *asm {
 	a.b = append(a.b, bs...)
 	return a
 }
-func (a *asm) ref(l string) *asm { a.b = append(a.b, 0x61); a.fix[len(a.b)] = l; a.b = append(a.b, 0, 0); return a }
+func (a *asm) ref(l string) *asm {
+	a.b = append(a.b, 0x61)
+	a.fix[len(a.b)] = l
+	a.b = append(a.b, 0, 0)
+	return a
+}
 func (a *asm) jumpi(l string) *asm { return a.ref(l).op(0x57) }
 func (a *asm) label(l string) *asm { a.labels[l] = len(a.b); return a.op(0x5b) }
 func (a *asm) bytes() []byte {
@@ -104,13 +109,14 @@ func moverCode() []byte {
 }
 
 // InitCode returns contract-creation code of a kind:
-//  ok       returns the Mover runtime code
-//  empty    returns no code (an account without code holding the endowment)
-//  revert   REVERT(0,0)
-//  invalid  an invalid opcode (all gas burnt)
-//  big      returns MaxCodeSize+1 bytes (refused: code too large, all gas burnt)
-//  max      returns exactly MaxCodeSize bytes (code deposit 200 gas per byte)
-//  json     the bytes `{"a":1}`: not "contract data" for the gas rule (third-party JSON payload), yet executed as init code
+//
+//	ok       returns the Mover runtime code
+//	empty    returns no code (an account without code holding the endowment)
+//	revert   REVERT(0,0)
+//	invalid  an invalid opcode (all gas burnt)
+//	big      returns MaxCodeSize+1 bytes (refused: code too large, all gas burnt)
+//	max      returns exactly MaxCodeSize bytes (code deposit 200 gas per byte)
+//	json     the bytes `{"a":1}`: not "contract data" for the gas rule (third-party JSON payload), yet executed as init code
 func InitCode(kind string) []byte {
 	ret := func(n int) []byte { // RETURN(0, n) of fresh memory
 		return newAsm().push(byte(n>>8), byte(n)).push(0).op(opRETURN).bytes()
